@@ -116,6 +116,7 @@ func supervise(p *Prop, tier string) int {
 	cmd.Stderr = errf
 	cmd.Env = append(os.Environ(),
 		"VERIF_JOURNAL="+journal,
+		"VERIF_PORT_BASE="+fmt.Sprint(portBase(p.ID)),
 		"GORACE=halt_on_error=0 history_size=5 log_path="+filepath.Join(RaceDir(p.ID), "r"),
 	)
 	cmd.SysProcAttr = &syscall.SysProcAttr{Setpgid: true}
@@ -179,6 +180,17 @@ func supervise(p *Prop, tier string) int {
 	}
 	fmt.Printf("BROKEN-RUN property=%s monitor exited with code %d (see %s)\n%s\n", p.ID, code, stderrPath, tailFile(stderrPath, 30))
 	return 3
+}
+
+// portBase gives every property its own 1000-port range below the ephemeral
+// range: C01 -> 11000, C20 -> 30000.
+func portBase(id string) int {
+	n := 0
+	fmt.Sscanf(strings.TrimPrefix(id, "C"), "%d", &n)
+	if n < 1 || n > 20 {
+		n = 21
+	}
+	return 10000 + n*1000
 }
 
 func seedFromEnv() uint64 {
